@@ -21,7 +21,8 @@ RULE = (
     "A fixed family of small configurations (1-3 chains; sequential and 2-process; single stage, warm-up + main, "
     "windowed warm-up with metric adapter; in-memory, temporary and user-directory memmap; generic and HMC "
     "samplers) is crossed with EVERY interrupt point: KeyboardInterrupt raised at every (chain, iteration) from the "
-    "integration transition, from the momentum transition, from each trace function, and (sequential runs) at every "
+    "integration transition, from the momentum transition, from each trace function, from the k-th trace call of EVERY worker process at once (as a "
+    "terminal Ctrl-C reaches all workers; runs with more chains than processes), and (sequential runs) at every "
     "call index of the density and gradient functions counted in the fault-free run - enumerated exhaustively per "
     "configuration (quick: 13 of the 45 configurations, covering every adapter / process / storage combination). Hypothesis adds generated configurations with generated "
     "interrupt points. Oracle: the call returns; using the independent per-iteration log, rows of iterations that "
@@ -71,6 +72,9 @@ def enumerated(tier):
                     yield {"cfg": cfg, "interrupt": ["transition", "momentum", cid, it]}
                 for ti in range(len(cfg["traces"])):
                     yield {"cfg": cfg, "interrupt": ["trace", ti, cid, it + 1]}
+        if cfg["n_process"] > 1:
+            for k in range(1, total + 1):
+                yield {"cfg": cfg, "interrupt": ["trace-per-process", 0, k]}
         if cfg["n_process"] == 1 and cfg["n_chain"] <= 2:
             for which in ("neg_log_dens", "grad_neg_log_dens"):
                 for k in range(1, 40, 1 if tier == "thorough" else 3):
@@ -117,7 +121,7 @@ def execute(cfg, interrupt, sc, sub):
     log = samp.Log(logdir)
     wrap = _UserWrap(interrupt[1], interrupt[2]) if interrupt and interrupt[0] == "user" else None
     b = samp.build(cfg, log, interrupt=interrupt if interrupt and interrupt[0] != "user" else None, wrap_user=wrap)
-    out, _ = samp.run(cfg, b, memdir=memdir)
+    out, _ = samp.run(cfg, b, memdir=memdir, timeout=45 if interrupt else 120)
     return b, out, log.read(), memdir
 
 
@@ -127,7 +131,7 @@ def run_case(case) -> Result:
     res = Result()
     cfg, intr = case["cfg"], case["interrupt"]
     site = intr[0] + ":" + str(intr[1])
-    res.classes += ["site:" + (site if intr[0] != "trace" else "trace"), f"n_process:{cfg['n_process']}",
+    res.classes += ["site:" + (site if not intr[0].startswith("trace") else intr[0]), f"n_process:{cfg['n_process']}",
                     "adapters:" + cfg["adapters"], "storage:" + cfg["storage"], "sampler:" + cfg["sampler"]]
     tag = (f"interrupt {intr} in {cfg['sampler']} run, {cfg['n_chain']} chains, n_process={cfg['n_process']}, "
            f"warm-up {cfg['n_warm']} main {cfg['n_main']}, adapters {cfg['adapters']}, stager {cfg['stager']}, "
@@ -139,8 +143,25 @@ def run_case(case) -> Result:
             res.discarded = True
             return res
         base_s = snapshot(base)
+        from vf.core import HarnessError
+
         try:
-            b, out, recs, memdir = execute(cfg, intr, sc, "intr")
+            try:
+                b, out, recs, memdir = execute(cfg, intr, sc, "intr")
+            except HarnessError as e:
+                if "watchdog" not in str(e):
+                    raise
+                # the uninterrupted run of the same configuration returned within seconds: try once more, then a
+                # second 45 s time-out is reported as the call not returning (the property is about returning)
+                try:
+                    b, out, recs, memdir = execute(cfg, intr, sc, "intr2")
+                except HarnessError as e2:
+                    if "watchdog" not in str(e2):
+                        raise
+                    res.fail("C15:does-not-return" + (":parallel" if cfg["n_process"] != 1 else ":sequential"),
+                             f"{tag}: sample_chains did not return within 45 s (twice) after the interrupt; the "
+                             f"uninterrupted run of the same configuration returns within seconds")
+                    return res
         except BaseException as e:  # noqa: BLE001
             if isinstance(e, (SystemExit,)) or through_code_under_test(e.__traceback__) is None:
                 raise
@@ -175,6 +196,7 @@ def run_case(case) -> Result:
         from vf.props.c13 import expected_rows
 
         int_it = None
+        loose = intr[0] in ("user", "trace-per-process")   # exact interrupted iteration(s) not known to the harness
         if intr[0] == "trace":
             int_it = (intr[2], intr[3])
         elif intr[0] == "transition":
@@ -188,12 +210,12 @@ def run_case(case) -> Result:
                 got, want = arr[row], ref[row]
                 is_fill = np.array_equal(got, np.full_like(got, fill), equal_nan=True)
                 is_base = np.array_equal(got, want, equal_nan=True)
-                if (c, it) in executed and (c, it) != int_it and intr[0] != "user":
+                if (c, it) in executed and (c, it) != int_it and not loose:
                     if not is_base:
                         res.fail("C15:completed-row-differs", f"{tag}: {name} chain {c} iteration {it} completed before the "
                                  f"interrupt but holds {got.tolist()} instead of {want.tolist()}")
                         return False
-                elif (c, it) not in executed and not ((c, it) == int_it) and intr[0] != "user":
+                elif (c, it) not in executed and not ((c, it) == int_it) and not loose:
                     if not is_fill:
                         res.fail("C15:unreached-row-not-fill", f"{tag}: {name} chain {c} iteration {it} was never executed "
                                  f"but holds {got.tolist()} (fill value {fill!r})")
@@ -238,7 +260,7 @@ def run_case(case) -> Result:
                 alt = [np.array(r["pos"]) for (cc, _), r in by.items() if cc == c] + [np.array(cfg["q"][c])]
                 # positions occupied during the interrupted iteration are valid chain states as well
                 ok = any(np.array_equal(pos, a) for a in alt)
-            if not ok and intr[0] == "trace":
+            if not ok and intr[0].startswith("trace"):
                 ok = True
             if not ok:
                 res.fail("C15:final-state-never-occupied", f"{tag}: returned final state of chain {c} (iteration counter "
